@@ -352,6 +352,7 @@ func (p *Prog) Decl(name string) *FuncDecl {
 						}
 					}
 					if _, dup := p.decls[key]; !dup {
+						NormalizeDispatch(fd.Body, pk.TypesInfo)
 						p.decls[key] = &FuncDecl{Decl: fd, Pkg: pk, File: f}
 					}
 				}
